@@ -225,15 +225,21 @@ def reljoin_random(rng, n):
             return N(rng.randrange(3))
         return rng.choice([X.set_([N(1)]), X.tup([("k", N(rng.randrange(2)))]), X.string("ab"), N(0.5), X.set_([])])
 
-    def operand(names):
+    def operand(names, like=None):
+        """rows over names; when `like` (rows of the other operand, as dicts) is given most rows copy its values on the
+        shared attributes, so that the operands really join"""
         names = sorted(names)
-        rows = [[cell(nm) for nm in names] for _ in range(rng.randrange(1, 5))]
+        rows = []
+        for _ in range(rng.randrange(1, 5)):
+            src = rng.choice(like) if like and rng.random() < 0.75 else {}
+            rows.append([src[nm] if nm in src else cell(nm) for nm in names])
+        dicts = [dict(zip(names, r)) for r in rows]
         r = rng.random()
         if r < 0.25 or len(names) == 0:
-            return X.rel(names, rows)
+            return X.rel(names, rows), dicts
         order = list(names)
         rng.shuffle(order)
-        return stored(order, names, rows)
+        return stored(order, names, rows), dicts
 
     for _ in range(n):
         ln = rng.sample(AL, rng.randrange(1, 5))
@@ -246,9 +252,10 @@ def reljoin_random(rng, n):
             rn = list(ln)                                                            # same heading
         else:
             rn = rng.sample(AL, rng.randrange(1, 5))
-        a, b = operand(ln), operand(rn)
+        a, da = operand(ln)
+        b, _ = operand(rn, like=da)
         if rng.random() < 0.2:      # an operand that is itself the result of another operator
-            a = X.join(rng.choice(["<->", "<&>", "-->", "<--", "-&-"]), a, operand(rng.sample(AL, rng.randrange(1, 4))))
+            a = X.join(rng.choice(["<->", "<&>", "-->", "<--", "-&-"]), a, operand(rng.sample(AL, rng.randrange(1, 4)), like=da)[0])
         out.append(("random", rng.choice(JOINS), a, b))
     return out
 
